@@ -31,6 +31,7 @@ ASSUMPTIONS = [
     "the wall clock is scripted through module attributes; a run directory not dated 2031 means the fake clock was bypassed -> harness error (exit 2)",
     "ties inside one second accept any tied run for :last/:first",
     "each run reads its own named file whose single data row carries the run number, so data.csv identifies the run",
+    "references are resolved after every run by the instance that ran and by the (up to three) oldest instances of the history, which stay alive",
 ]
 ENUM_EXHAUSTIVE = {
     "quick": "all canonical histories of length <= 3 (collect_paths)",
@@ -138,10 +139,12 @@ def run_case(case, sb):
             setup.paths_manager.add_named_paths(name=g, paths=["~ id: m ~ $[*][ yes() ]"])
         cps = None
         prev = None
+        instances = []   # every instance of the history stays alive and keeps resolving references
         for k, (g, mode, ti, method) in enumerate(runs):
             FakeDateTime._now = INSTANTS[ti]
             if mode == "new" or cps is None:
                 cps = real.new_csvpaths()
+                instances.append(cps)
             rel = sb.write_csv(f"in{k}.csv", [["run", "n"], ["run", str(k)]])
             cps.file_manager.add_named_file(name=f"f{k}", path=os.path.join(sb.root, rel))
             if prev is not None:
@@ -192,14 +195,15 @@ def run_case(case, sb):
                     allc = [h for h in mine if h["dir"].startswith(prefix)]
                     if not allc or len(cand) != len(allc):
                         continue
-                    for which in ("last", "first"):
+                    resolvers = [("current", cps)] + [(f"instance#{i}", c) for i, c in enumerate(instances[:3]) if c is not cps]
+                    for (who, inst), which in itertools.product(resolvers, ("last", "first")):
                         ref = f"${gg}.results.{prefix}:{which}.m"
-                        got = core.call_real(cps.file_manager.get_named_file, ref)
+                        got = core.call_real(inst.file_manager.get_named_file, ref)
                         tbest = max(h["t"] for h in cand) if which == "last" else min(h["t"] for h in cand)
                         ok_ks = sorted(h["k"] for h in cand if h["t"] == tbest)
                         gk = data_run_number(got) if isinstance(got, str) else None
                         if gk not in ok_ks:
-                            problems.append({"run": k, "reference": ref, "expected_run_one_of": ok_ks,
+                            problems.append({"run": k, "reference": ref, "resolved_by": who, "expected_run_one_of": ok_ks,
                                              "observed_run": gk, "observed": repr(got)[:200],
                                              "directories": [(h["k"], h["dir"]) for h in mine]})
                             break
